@@ -21,6 +21,10 @@ ALLOWED_STATICS = {
     # lazy_static once-cell holding an empty RuleSet that is only ever read (Expr::evaluate's ruleset)
     "lazy_static::lazy::Lazy<ruleset::RuleSet>": "lazy_static once-cell of an empty RuleSet; initialised once with Default, afterwards only dereferenced",
 }
+# a once-initialised cell around one of the crate's own plain-data types (lazy_static's Lazy, std's LazyLock / OnceLock):
+# the only interior mutation is the one-time initialisation; afterwards it is dereferenced (that the payload type is
+# plain owned data is rule 2; that nothing takes a mutable borrow of a static is checked below)
+ONCE_CELL_OF_DATA = re.compile(r"^(lazy_static::lazy::Lazy|std::sync::LazyLock|std::sync::OnceLock|std::cell::LazyCell)<(ruleset::RuleSet|symbol::Symbols|function::UserFunctions)(, fn\(\) -> [\w:]+)?>$")
 DENY = [
     (re.compile(r"(chrono::(Utc|Local)::now|std::time::(Instant|SystemTime)::now|::elapsed\b)"), "clock"),
     (re.compile(r"(^|::)(rand|getrandom|fastrand)::|RandomState|DefaultHasher"), "randomness / hash seeds"),
@@ -107,7 +111,7 @@ def run(res, f, tier):
             ob(False, key, "`static mut` %s at %s" % (s["path"], s["span"]))
         elif s["thread_local"]:
             ob(False, key, "thread-local static %s at %s" % (s["path"], s["span"]))
-        elif not s["freeze"] and s["ty_s"] not in ALLOWED_STATICS:
+        elif not s["freeze"] and s["ty_s"] not in ALLOWED_STATICS and not ONCE_CELL_OF_DATA.match(s["ty_s"]):
             ob(False, key, "static %s: %s has interior mutability (state shared between evaluations)" % (s["path"], s["ty_s"]), s)
         else:
             ob(True, key, "")
